@@ -7,6 +7,12 @@ import SmppVerif.Model.SweepTasks
 namespace SmppVerif.Lemmas.SweepTasks
 open SmppVerif SmppVerif.Corr SmppVerif.SweepTasks SmppVerif.Lemmas.Corr SmppVerif.Lemmas.Expiry
 
+theorem aget_adel_some' {κ ν : Type} [DecidableEq κ] (d : List (κ × ν)) (k k' : κ) (v : ν)
+    (h : aget (adel d k) k' = some v) : aget d k' = some v := by
+  by_cases e : k' = k
+  · subst e; rw [aget_adel_same] at h; cases h
+  · rw [aget_adel_other d k k' e] at h; exact h
+
 /-- 1 if a request is stored under `k` -/
 def live (s : CState) (k : Nat) : Nat := if (aget s.store k).isSome then 1 else 0
 
@@ -27,6 +33,16 @@ theorem removed_append' (k : Nat) (a b : List Obs) : removed k (a ++ b) = remove
   simp [removed, List.countP_append]
 theorem inserted_append' (k : Nat) (a b : List Obs) : inserted k (a ++ b) = inserted k a + inserted k b := by
   simp [inserted, List.countP_append]
+
+theorem removed_cons_timeout (k k0 : Nat) (o : List Out) (l : List Obs) :
+    removed k (Obs.timeout k0 o :: l) = (if k0 = k then 1 else 0) + removed k l := by
+  by_cases e : k0 = k
+  · simp [removed, isRemoval, List.countP_cons, e]; omega
+  · simp [removed, isRemoval, List.countP_cons, e]
+
+theorem inserted_cons_timeout (k k0 : Nat) (o : List Out) (l : List Obs) :
+    inserted k (Obs.timeout k0 o :: l) = inserted k l := by
+  simp [inserted, isInsertion, List.countP_cons]
 
 theorem live_le_one (s : CState) (k : Nat) : live s k ≤ 1 := by unfold live; split <;> omega
 
@@ -69,16 +85,37 @@ theorem sweepTurn_bal (now k : Nat) : ∀ (ks : List Nat) (s : CState),
       dsimp only
       by_cases hexp : now - at_ > s.ttlResp
       · rw [if_pos hexp]
-        dsimp only
         have hst := (expired_store { s with store := adel s.store k0 } m).1
-        rw [live_of_store_eq hst k, live_adel s k k0]
         have hl : live s k0 = 1 := by unfold live; rw [hg]; rfl
-        refine ⟨?_, by simp [inserted, isInsertion]⟩
-        by_cases e : k = k0
-        · subst e
-          simp [removed, isRemoval, hl]
-        · have : (k0 = k) = False := by simp; exact fun h => e h.symm
-          simp [removed, isRemoval, e, this]
+        by_cases hno : (expired { s with store := adel s.store k0 } m).2 = []
+        · -- no hook call: the sweep goes on in this turn
+          rw [if_pos hno]
+          dsimp only
+          have ih := sweepTurn_bal now k ks (expired { s with store := adel s.store k0 } m).1
+          rw [live_of_store_eq hst k, live_adel s k k0] at ih
+          have ih1 := ih.1
+          refine ⟨?_, ?_⟩
+          · rw [removed_cons_timeout]
+            by_cases e : k = k0
+            · subst e
+              rw [if_pos rfl] at ih1
+              rw [if_pos rfl]
+              omega
+            · have e' : ¬ (k0 = k) := fun h => e h.symm
+              rw [if_neg e] at ih1
+              rw [if_neg e']
+              omega
+          · rw [inserted_cons_timeout]
+            exact ih.2
+        · rw [if_neg hno]
+          dsimp only
+          rw [live_of_store_eq hst k, live_adel s k k0]
+          refine ⟨?_, by simp [inserted, isInsertion]⟩
+          by_cases e : k = k0
+          · subst e
+            simp [removed, isRemoval, hl]
+          · have : (k0 = k) = False := by simp; exact fun h => e h.symm
+            simp [removed, isRemoval, e, this]
       · rw [if_neg hexp]
         exact sweepTurn_bal now k ks s
 
@@ -220,9 +257,23 @@ theorem timeout_never_early (now : Nat) : ∀ (ks : List Nat) (s : CState) (k : 
       dsimp only at h
       by_cases hexp : now - at_ > s.ttlResp
       · rw [if_pos hexp] at h
-        simp only [List.mem_singleton, Obs.timeout.injEq] at h
-        obtain ⟨rfl, _⟩ := h
-        exact ⟨at_, m, hg, hexp⟩
+        by_cases hno : (expired { s with store := adel s.store k0 } m).2 = []
+        · rw [if_pos hno] at h
+          dsimp only at h
+          rcases List.mem_cons.mp h with h0 | h1
+          · simp only [Obs.timeout.injEq] at h0
+            obtain ⟨rfl, _⟩ := h0
+            exact ⟨at_, m, hg, hexp⟩
+          · obtain ⟨a1, m1, hg1, hx1⟩ :=
+              timeout_never_early now ks (expired { s with store := adel s.store k0 } m).1 k o h1
+            have hst := expired_store { s with store := adel s.store k0 } m
+            rw [hst.1] at hg1
+            rw [hst.2] at hx1
+            exact ⟨a1, m1, aget_adel_some' s.store k0 k (a1, m1) hg1, hx1⟩
+        · rw [if_neg hno] at h
+          simp only [List.mem_singleton, Obs.timeout.injEq] at h
+          obtain ⟨rfl, _⟩ := h
+          exact ⟨at_, m, hg, hexp⟩
       · rw [if_neg hexp] at h
         exact timeout_never_early now ks s k o h
 
@@ -241,7 +292,11 @@ theorem overdue_not_skipped (now : Nat) : ∀ (ks : List Nat) (s : CState) (k at
       rw [hg]
       dsimp only
       rw [if_pos hexp]
-      exact Or.inl ⟨(expired { s with store := adel s.store k0 } m).2, by simp⟩
+      by_cases hno : (expired { s with store := adel s.store k0 } m).2 = []
+      · rw [if_pos hno]
+        exact Or.inl ⟨[], by simp⟩
+      · rw [if_neg hno]
+        exact Or.inl ⟨(expired { s with store := adel s.store k0 } m).2, by simp⟩
     · have hk' : k ∈ ks := by
         rcases List.mem_cons.mp hk with h | h
         · exact absurd h.symm e
@@ -253,7 +308,23 @@ theorem overdue_not_skipped (now : Nat) : ∀ (ks : List Nat) (s : CState) (k at
         dsimp only
         by_cases hexp0 : now - a0 > s.ttlResp
         · rw [if_pos hexp0]
-          exact Or.inr ⟨⟨now, ks⟩, rfl, hk'⟩
+          by_cases hno : (expired { s with store := adel s.store k0 } m0).2 = []
+          · rw [if_pos hno]
+            dsimp only
+            have hst := expired_store { s with store := adel s.store k0 } m0
+            have hg' : aget (expired { s with store := adel s.store k0 } m0).1.store k = some (at_, m) := by
+              rw [hst.1]
+              show aget (adel s.store k0) k = some (at_, m)
+              rw [aget_adel_other s.store k0 k (fun h => e h.symm)]
+              exact hg
+            have hexp' : now - at_ > (expired { s with store := adel s.store k0 } m0).1.ttlResp := by
+              rw [hst.2]; exact hexp
+            rcases overdue_not_skipped now ks (expired { s with store := adel s.store k0 } m0).1 k at_ m hk' hg' hexp'
+              with ⟨o, ho⟩ | hr
+            · exact Or.inl ⟨o, List.mem_cons_of_mem _ ho⟩
+            · exact Or.inr hr
+          · rw [if_neg hno]
+            exact Or.inr ⟨⟨now, ks⟩, rfl, hk'⟩
         · rw [if_neg hexp0]
           exact overdue_not_skipped now ks s k at_ m hk' hg hexp
 
@@ -305,20 +376,38 @@ theorem sweepAll_eq (now : Nat) : ∀ (ks : List Nat) (s : CState) (fuel : Nat),
       | some p =>
         obtain ⟨at_, m⟩ := p
         by_cases hexp : now - at_ > s.ttlResp
-        · have ih := sweepAll_eq now ks (expired { s with store := adel s.store k } m).1 f hf'
-          have h1 : sweepTurn now (k :: ks) s =
-              ((expired { s with store := adel s.store k } m).1,
-               [.timeout k (expired { s with store := adel s.store k } m).2], some ⟨now, ks⟩) := by
-            rw [sweepTurn, hg]; dsimp only; rw [if_pos hexp]
-          have h2 : sweepStore now (k :: ks) s =
+        · have h2 : sweepStore now (k :: ks) s =
               ((sweepStore now ks (expired { s with store := adel s.store k } m).1).1,
                (expired { s with store := adel s.store k } m).2 ++
                  (sweepStore now ks (expired { s with store := adel s.store k } m).1).2) := by
             rw [sweepStore, hg]; dsimp only; rw [if_pos hexp]
-          simp only [sweepAll, h1, h2]
-          refine ⟨ih.1, ?_⟩
-          rw [List.flatMap_append, ih.2]
-          simp [outsOf]
+          by_cases hno : (expired { s with store := adel s.store k } m).2 = []
+          · -- swept out without a hook call: this turn goes on
+            have ih := sweepAll_eq now ks (expired { s with store := adel s.store k } m).1 (f + 1) (by omega)
+            have h1 : sweepTurn now (k :: ks) s =
+                ((sweepTurn now ks (expired { s with store := adel s.store k } m).1).1,
+                 .timeout k [] :: (sweepTurn now ks (expired { s with store := adel s.store k } m).1).2.1,
+                 (sweepTurn now ks (expired { s with store := adel s.store k } m).1).2.2) := by
+              rw [sweepTurn, hg]; dsimp only; rw [if_pos hexp, if_pos hno]
+            have h3 : sweepAll now (f + 1) (k :: ks) s =
+                ((sweepAll now (f + 1) ks (expired { s with store := adel s.store k } m).1).1,
+                 .timeout k [] :: (sweepAll now (f + 1) ks (expired { s with store := adel s.store k } m).1).2) := by
+              simp only [sweepAll, h1]
+              rcases sweepTurn now ks (expired { s with store := adel s.store k } m).1 with ⟨q1, q2, q3⟩
+              cases q3 <;> rfl
+            rw [h3, h2, hno]
+            refine ⟨ih.1, ?_⟩
+            rw [List.flatMap_cons, ih.2]
+            simp [outsOf]
+          · have ih := sweepAll_eq now ks (expired { s with store := adel s.store k } m).1 f hf'
+            have h1 : sweepTurn now (k :: ks) s =
+                ((expired { s with store := adel s.store k } m).1,
+                 [.timeout k (expired { s with store := adel s.store k } m).2], some ⟨now, ks⟩) := by
+              rw [sweepTurn, hg]; dsimp only; rw [if_pos hexp, if_neg hno]
+            simp only [sweepAll, h1, h2]
+            refine ⟨ih.1, ?_⟩
+            rw [List.flatMap_append, ih.2]
+            simp [outsOf]
         · have h1 : sweepTurn now (k :: ks) s = sweepTurn now ks s := by
             rw [sweepTurn, hg]; dsimp only; rw [if_neg hexp]
           have h2 : sweepStore now (k :: ks) s = sweepStore now ks s := by
